@@ -267,6 +267,10 @@ func peKeep(rec *v1beta1.PodENI, now time.Time) (keep, undecided bool, why strin
 
 func (m *peMon) judgeFixedRelease(name string, rec *v1beta1.PodENI, verb string) {
 	m.r.Count("fixed_releases_judged", 1)
+	if p := m.cur[name]; p.live() && p.UID == rec.Annotations[types.PodUID] && peState(rec) != "initial" {
+		m.violate("C11", "C11.fixed-record-released", "pod-running", fmt.Sprintf("record %s with a fixed allocation was moved to deleting (%s) while its pod %s is running", name, verb, p.UID))
+		return
+	}
 	keep, undecided, why := peKeep(rec, time.Now())
 	if undecided {
 		m.r.Count("fixed_releases_inside_ttl_margin_not_judged", 1)
